@@ -12,6 +12,7 @@ import (
 	"path/filepath"
 	"regexp"
 	"sync"
+	"sync/atomic"
 	"syscall"
 	"testing"
 	"time"
@@ -24,6 +25,7 @@ type vfC05Act struct {
 	Chunks  [][]byte `json:"chunks,omitempty"`
 	Outcome string   `json:"outcome,omitempty"` // succeeded refused failed stopped
 	Upload  bool     `json:"upload,omitempty"`
+	Early   bool     `json:"early,omitempty"` // stopped / sigint only: the end comes while the server is held before it has seen the action
 }
 
 type vfC05Case struct {
@@ -236,6 +238,7 @@ func vfC05Transfer(sess *vfSession, a vfC05Act, src, base string) string {
 	if a.Outcome == "succeeded" || a.Outcome == "forked" {
 		cfg.Timeout = 10 // nothing here depends on a timeout expiring: on a heavily loaded machine 2 s can expire by itself
 	}
+	var fired atomic.Bool
 	var chatter *vfChatter
 	if a.Outcome == "refused" && !a.Upload && sess.opts.Relays == 0 {
 		// the wrapper refuses this download itself (the save directory does not exist): no transfer ever becomes active, so what the
@@ -243,9 +246,44 @@ func vfC05Transfer(sess *vfSession, a vfC05Act, src, base string) string {
 		// a relay: a relay that saw the trigger reads its client's answer junk-tolerantly and discards what is typed in front of it)
 		chatter = vfStartChatter(sess)
 	}
+	early := a.Early && (a.Outcome == "stopped" || a.Outcome == "sigint")
+	if early {
+		// the transfer ends between the action and the configuration: the server is held (SIGSTOP) just before the action reaches
+		// it, the end happens (the client is stopped, or the server is interrupted), and only then the server runs again. A slow
+		// server or a slow line gives the same order of events by itself; whoever sits in between is in the middle of the handshake.
+		tap := sess.c2s
+		if sess.opts.Tunnel {
+			tap = sess.tunC2S
+		}
+		var once sync.Once
+		stopClient := a.Outcome == "stopped"
+		tap.onMsg = func(m vfMsg, before bool) {
+			if !before { // the first protocol line of this transfer towards the server is the action
+				return
+			}
+			once.Do(func() {
+				fired.Store(true)
+				sess.signalServer(syscall.SIGSTOP)
+				go func() {
+					time.Sleep(40 * time.Millisecond)
+					if stopClient {
+						sess.filter.StopTransferringFiles(false)
+					} else {
+						sess.signalServer(syscall.SIGINT)
+					}
+					time.Sleep(900 * time.Millisecond) // a stopped client first waits for its input to fall silent (at least 500 ms)
+					sess.signalServer(syscall.SIGCONT)
+				}()
+			})
+		}
+		defer func() { tap.onMsg = nil }()
+	}
 	run, err := vfStartTransfer(sess, cfg, paths, dest)
 	if err != nil {
 		return "cannot start: " + err.Error()
+	}
+	if early {
+		a.Outcome = "early"
 	}
 	if chatter != nil {
 		if m := chatter.finish(); m != "" {
@@ -290,6 +328,9 @@ func vfC05Transfer(sess *vfSession, a vfC05Act, src, base string) string {
 		}
 	}
 	run.finish(40 * time.Second)
+	if early && os.Getenv("VERIF_DEBUG") != "" {
+		return fmt.Sprintf("DEBUG fired=%v c2s=%q s2c=%q %s", fired.Load(), sess.c2s.transcript(), sess.s2c.transcript(), run.describe())
+	}
 	if !run.serverEnded {
 		return "server did not exit after outcome " + a.Outcome + ": " + run.describe()
 	}
@@ -388,6 +429,7 @@ func vfGenC05(rt *rapid.T) vfC05Case {
 			a.Kind = "transfer"
 			a.Outcome = rapid.SampledFrom([]string{"succeeded", "refused", "failed", "stopped", "stopped_ui", "sigint", "forked"}).Draw(rt, "outcome")
 			a.Upload = rapid.Bool().Draw(rt, "upload")
+			a.Early = (a.Outcome == "stopped" || a.Outcome == "sigint") && rapid.IntRange(0, 2).Draw(rt, "early") == 0
 		case cs.Sess.Drag && k == 1 && rapid.IntRange(0, 2).Draw(rt, "dragback") == 0:
 			a.Kind = "dragback"
 			a.Chunks = [][]byte{
